@@ -24,6 +24,23 @@ def strip_tests(src):
     return src if i < 0 else src[:i]
 
 
+def norm(src):
+    """comments stripped, whitespace collapsed: patterns below are written against this form and use \\w+ for
+    local identifiers, so that renaming a local or re-wrapping a line does not lose a constant"""
+    src = re.sub(r"//[^\n]*", "", src)
+    return re.sub(r"\s+", " ", src)
+
+
+def fn_body(src, name):
+    """normalised text from `fn name` to the next `fn ` at the same or lower nesting (approximation: next '\n    fn ' / '\nfn ')"""
+    m = re.search(r"fn %s\b" % re.escape(name), src)
+    if not m:
+        return ""
+    rest = src[m.start():]
+    n = re.search(r"\n\s*(pub )?fn \w+", rest[10:])
+    return norm(rest[: n.start() + 10] if n else rest)
+
+
 def num(s):
     s = s.strip().replace("_", "")
     s = re.sub(r"(u8|u32|u64|usize|i32)$", "", s)
@@ -60,10 +77,24 @@ def main():
 
     ty = strip_tests(read("types.rs"))
     grab("maskDelta", ty, r"const MASK_DELTA: u32 = (0x[0-9a-fA-F]+);")
-    grab("maskShr", ty, r"pub fn mask_crc\(c: u32\) -> u32 \{\s*\(c\.wrapping_shr\((\d+)\) \| c\.wrapping_shl\(\d+\)\)\.wrapping_add\(MASK_DELTA\)")
-    grab("maskShl", ty, r"pub fn mask_crc\(c: u32\) -> u32 \{\s*\(c\.wrapping_shr\(\d+\) \| c\.wrapping_shl\((\d+)\)\)\.wrapping_add\(MASK_DELTA\)")
-    grab("unmaskShr", ty, r"let rot = mc\.wrapping_sub\(MASK_DELTA\);\s*rot\.wrapping_shr\((\d+)\) \| rot\.wrapping_shl\(\d+\)")
-    grab("unmaskShl", ty, r"let rot = mc\.wrapping_sub\(MASK_DELTA\);\s*rot\.wrapping_shr\(\d+\) \| rot\.wrapping_shl\((\d+)\)")
+    tyn = norm(ty)
+    mk = re.search(r"pub fn mask_crc\(\w+: u32\) -> u32 \{ \((\w+)\.wrapping_shr\((\d+)\) \| \1\.wrapping_shl\((\d+)\)\)\.wrapping_add\(MASK_DELTA\)", tyn)
+    mr = re.search(r"pub fn mask_crc\(\w+: u32\) -> u32 \{ \w+\.rotate_right\((\d+)\)\.wrapping_add\(MASK_DELTA\)", tyn)
+    if mk:
+        found["maskShr"], found["maskShl"] = int(mk.group(2)), int(mk.group(3))
+    elif mr:
+        found["maskShr"], found["maskShl"] = int(mr.group(1)), 32 - int(mr.group(1))
+    else:
+        missing.extend(["maskShr", "maskShl"])
+    um = re.search(r"let (\w+) = \w+\.wrapping_sub\(MASK_DELTA\); \1\.wrapping_shr\((\d+)\) \| \1\.wrapping_shl\((\d+)\)", tyn)
+    ur = re.search(r"\w+\.wrapping_sub\(MASK_DELTA\)\.rotate_(right|left)\((\d+)\)", tyn)
+    if um:
+        found["unmaskShr"], found["unmaskShl"] = int(um.group(2)), int(um.group(3))
+    elif ur:
+        k = int(ur.group(2))
+        found["unmaskShr"], found["unmaskShl"] = (k, 32 - k) if ur.group(1) == "right" else (32 - k, k)
+    else:
+        missing.extend(["unmaskShr", "unmaskShl"])
 
     fb = strip_tests(read("filter_block.rs"))
     grab("filterBaseLog2", fb, r"const FILTER_BASE_LOG2: u32 = (\d+);")
@@ -71,39 +102,38 @@ def main():
     tbk = strip_tests(read("table_block.rs"))
     # fix D20: the declared uncompressed length of a snappy block is checked against this multiple of the
     # compressed length before the decoder allocates it
-    if re.search(r"let declared = snap::raw::decompress_len\(&buf\)\?;\s*if declared > buf\.len\(\)\.saturating_mul\(SNAPPY_MAX_EXPANSION\) \{\s*return err\(\s*StatusCode::CompressionError,", tbk):
+    if re.search(r"let (\w+) = snap::raw::decompress_len\(&(\w+)\)\?; if \1 > \2\.len\(\)\.saturating_mul\(SNAPPY_MAX_EXPANSION\) \{ return err\( ?StatusCode::CompressionError,", norm(tbk)):
         grab("snappyMaxExpansion", tbk, r"const SNAPPY_MAX_EXPANSION: usize = (\d+);")
     else:
         missing.append("snappyMaxExpansion")
 
     fl = strip_tests(read("filter.rs"))
     grab("bloomSeed", fl, r"const BLOOM_SEED: u32 = (0x[0-9a-fA-F]+);")
-    grab("bloomM", fl, r"let m: u32 = (0x[0-9a-fA-F]+);")
-    grab("bloomR", fl, r"let r: u32 = (\d+);")
-    grab("bloomMidShift", fl, r"h \^= h >> (\d+);\s*\}\s*// Process left-over")
-    grab("bloomDeltaShr", fl, r"let delta = \(h >> (\d+)\) \| \(h << \d+\);")
-    grab("bloomDeltaShl", fl, r"let delta = \(h >> \d+\) \| \(h << (\d+)\);")
+    bh = fn_body(fl, "bloom_hash")
+    grab("bloomM", bh, r"let \w+: u32 = (0x[0-9a-fA-F]+);")
+    grab("bloomR", bh, r"let \w+: u32 = (\d+);")
+    grab("bloomMidShift", bh, r"(\w+) \^= \1 >> (\d+);", group=2)
+    fln = norm(fl)
+    grab("bloomDeltaShr", fln, r"let \w+ = \((\w+) >> (\d+)\) \| \(\1 << \d+\);", group=2)
+    grab("bloomDeltaShl", fln, r"let \w+ = \((\w+) >> \d+\) \| \(\1 << (\d+)\);", group=2)
     # k = bits_per_key * 0.69, clamped to [1, 30]; 0.69 is written as a rational 69/100
-    grab("bloomKNum", fl, r"let mut k = \(bits_per_key as f32 \* 0\.(\d+)\) as u32;")
-    grab("bloomKMin", fl, r"if k < (\d+) \{\s*k = \d+;")
-    grab("bloomKMax", fl, r"else if k > (\d+) \{\s*k = \d+;")
-    grab("bloomMinBits", fl, r"if filter_bits < (\d+) \{")
+    grab("bloomKNum", fln, r"\(\w+ as f32 \* 0\.(\d+)\) as u32")
+    grab("bloomKMin", fln, r"if (\w+) < (\d+) \{ \1 = \d+; \}", group=2)
+    grab("bloomKMax", fln, r"else if (\w+) > (\d+) \{ \1 = \d+; \}", group=2)
+    cf = fn_body(fl[fl.find("impl FilterPolicy for BloomPolicy"):], "create_filter")
+    km = fn_body(fl[fl.find("impl FilterPolicy for BloomPolicy"):], "key_may_match")
+    grab("bloomMinBits", cf, r"if \w+ < (\d+) \{")
     # key_may_match: filters whose probe-count byte exceeds this are treated as "may match" (reserved encodings)
-    grab("bloomReaderKMax", fl, r"if k > (\d+) \{\s*return true;")
+    grab("bloomReaderKMax", km, r"if \w+ > (\d+) \{ return true; \}")
     # width of the integer type in which the number of filter bits is computed (fix D19: u64; before: u32)
-    ww = re.search(r"let adj_filter_bits = filter\.len\(\) as u(\d+) \* 8;", fl) or re.search(r"let adj_filter_bits = \(filter\.len\(\) \* 8\) as u(\d+);", fl)
-    rw = re.search(r"let bits = \(filter\.len\(\) - 1\) as u(\d+) \* 8;", fl)
-    wuse = re.search(r"let bitpos = \(h as u(\d+) % adj_filter_bits\) as usize;", fl)
-    ruse = re.search(r"let bitpos = \(h as u(\d+) % bits\) as usize;", fl)
+    ww = re.search(r"let (\w+) = \w+\.len\(\) as u(\d+) \* 8;", cf) or re.search(r"let (\w+) = \(\w+\.len\(\) \* 8\) as u(\d+);", cf)
+    rw = re.search(r"let (\w+) = \(\w+\.len\(\) - 1\) as u(\d+) \* 8;", km)
     if ww and rw:
-        widths = [int(ww.group(1)), int(rw.group(1))]
-        # the remainder must be taken in the same width (otherwise the expression would not even type-check
-        # for u64 counts); the old code took `h % bits` in u32
-        for u in (wuse, ruse):
-            if u:
-                widths.append(int(u.group(1)))
-            else:
-                widths.append(32)
+        widths = [int(ww.group(2)), int(rw.group(2))]
+        # the remainder must be taken in the same width; the old code took `h % bits` in u32
+        for body, var in ((cf, ww.group(1)), (km, rw.group(1))):
+            u = re.search(r"\(\w+ as u(\d+) % " + re.escape(var) + r"\) as usize", body)
+            widths.append(int(u.group(1)) if u else 32)
         found["bloomBitsWidth"] = min(widths)
     else:
         missing.append("bloomBitsWidth")
@@ -124,17 +154,25 @@ def main():
         found["statusCodes"] = [x.strip() for x in m.group(1).replace("\n", " ").split(",") if x.strip()]
     else:
         missing.append("statusCodes")
-    m = re.search(r"let c = match e\.kind\(\) \{(.*?)\};", er, re.S)
+    ern = norm(er)
+    m = re.search(r"impl From<io::Error> for Status \{.*?match \w+\.kind\(\) \{(.*?)\}", ern)
     if m:
-        table = re.findall(r"io::ErrorKind::(\w+) => StatusCode::(\w+),", m.group(1))
-        dflt = re.search(r"_ => StatusCode::(\w+),", m.group(1))
-        found["ioErrorTable"] = table
+        table = []
+        for arm in re.finditer(r"((?:(?:io::)?ErrorKind::\w+ ?\|? ?)+)=> StatusCode::(\w+),", m.group(1)):
+            for kind in re.findall(r"ErrorKind::(\w+)", arm.group(1)):
+                table.append((kind, arm.group(2)))
+        dflt = re.search(r"_ => StatusCode::(\w+),?", m.group(1))
+        # canonical order: arms may be reordered or grouped without changing the mapping
+        found["ioErrorTable"] = sorted(set(table))
         found["ioErrorDefault"] = dflt.group(1) if dflt else None
         if not dflt:
             missing.append("ioErrorDefault")
     else:
         missing.append("ioErrorTable")
-    grab("displayWritesErr", er, r"impl Display for Status \{\s*fn fmt\(&self, fmt: &mut Formatter\) -> result::Result<\(\), fmt::Error> \{\s*fmt\.write_str\(&self\.(err)\)", str)
+    if re.search(r"impl Display for Status \{ fn fmt\(&self, \w+: &mut Formatter\) -> result::Result<\(\), fmt::Error> \{ (\w+\.write_str\(&self\.err\)|write!\(\w+, \"\{\}\", self\.err\)) \}", ern):
+        found["displayWritesErr"] = "err"
+    else:
+        missing.append("displayWritesErr")
 
     cm = strip_tests(read("cmp.rs"))
     grab("defaultCmpId", cm, r'fn id\(&self\) -> &\'static str \{\s*"([^"]+)"', str)
